@@ -694,6 +694,30 @@ fn export<'tcx>(tcx: TyCtxt<'tcx>) {
                 o.push_str(&q(n));
             }
         }
+        o.push_str("],\"aggs\":[");
+        {
+            let mut seen: Vec<String> = Vec::new();
+            for bb in body.basic_blocks.iter() {
+                for st in &bb.statements {
+                    if let StatementKind::Assign(b) = &st.kind {
+                        if let Rvalue::Aggregate(k, _) = &b.1 {
+                            if let AggregateKind::Adt(d, ..) = &**k {
+                                let n = dps(tcx, *d);
+                                if !seen.contains(&n) {
+                                    seen.push(n);
+                                }
+                            }
+                        }
+                    }
+                }
+            }
+            for (i, n) in seen.iter().enumerate() {
+                if i > 0 {
+                    o.push(',');
+                }
+                o.push_str(&q(n));
+            }
+        }
         let _ = write!(o, "],\"argc\":{}", body.arg_count);
         if body.coroutine.is_some() {
             o.push_str(",\"coroutine\":true");
